@@ -57,6 +57,44 @@ T = {
              "negative value of a signed integer-family type and an EMPTY buffer (first == last): '-' and every digit written past last", ["C13"]),
  "M-C14-2": ("C14", "integer to_chars no longer converts the value to native rounding before digit generation (charconv/to_chars.h)",
              "rounding_integer / static_integer with nearest or tie_to_pos_inf rounding passed to to_chars, a non-leading digit d with 2d >= base", ["C14", "C13"]),
+ "M-C01-2": ("C01", "scaled rep-level unary operator gains a trailing return type Rep: -rep narrowed back to the rep (scaled/unary_operator.h)",
+             "rep narrower than int: every non-zero value of uint8/uint16 reps, the most negative value of int8/int16 reps; the result type changes too", ["C01", "C12"]),
+ "M-C02-2": ("C02", "elastic policy<modulo_op>: is_signed = LhsIsSigned only (elastic_tag/policy.h)",
+             "unsigned elastic dividend, signed elastic divisor with a negative value, |a| >= |b|", ["C02", "C05"]),
+ "M-C03-2": ("C03", "builtin OP wrapper comparison converts the integer with static_cast<Rhs> instead of from_value<Rhs> (wrapper/comparison_operator.h)",
+             "built-in integer as the LEFT operand whose value does not fit the right operand's type (narrow rep, negative exponent, negative vs unsigned)", ["C03", "C12"]),
+ "M-C04-2": ("C04", "integer->integer scaled conversion: arithmetic right shift fast path for wide built-in sources (scaled/convert_operator.h)",
+             "signed built-in rep wider than int, radix 2, destination exponent greater than the source's, negative value with a non-zero discarded bit (floors instead of truncating)", ["C04"]),
+ "M-C12-2": ("C12", "assign_bitwise_xor_op::binary = bitwise_or_op (custom_operator/op.h)",
+             "a ^= b on any CNL wrapper with operands sharing a set bit", ["C12"]),
+ "M-C15-2": ("C15", "make_from_udl descales through std::int64_t instead of the parsed significand type (elastic_scaled_integer.h)",
+             "_cnl/_cnl2 token needing more than 63 bits (value reduced mod 2^64, or the literal stops compiling when the low 64 bits are zero)", ["C15"]),
+ "M-C16-2": ("C16", "hash skips canonical() for fractions already in lowest terms (fraction/hash.h)",
+             "fraction in lowest terms with a negative denominator compared with an equal fraction", ["C16"]),
+ "M-C18-2": ("C18", "rotr: the second `% width` of the complementary shift removed (bit.h)",
+             "32/64/128-bit operand and a count that is a multiple of the width (incl. 0): shift by the full width (UB; no wrong value on x86-64 at run time)", ["C18"]),
+ "M-C19-2": ("C19", "integer sqrt: start bit mask ~1 replaced by 0x7e (cmath/sqrt.h)",
+             "integer type with more than 128 digits (wide_integer<N>, N > 128, or a scaled/elastic type over it), operand >= 2^72", ["C19"]),
+}
+
+
+# id -> what happened when the change was first run against the checks, and what was strengthened because of it
+HIST = {
+ "M-C05-1": "missed at first: C05 judged result types only; unary/shift EQ kernels (operand widened before the operator) added",
+ "M-C07-1": "missed at first: the line matrix had no (wide dividend, narrower signed divisor) pair; type pairs stratified by (width relation, signedness); exposed defects D18/D19, repaired",
+ "M-C11-1": "missed at first: storage facts (limb count / width of the wide layer incl. the sign bit) added to C11",
+ "M-C12-1": "missed at first by C12 (caught by C03): mixed-exponent comparison kernels added to C12",
+ "M-C13-1": "missed at first: the layout arithmetic was declared undecided; layout-contract lines added (real solvers + real selection), which also exposed defect D20, repaired",
+ "M-C14-1": "missed at first: rule R5 (working significand type represents every Rep value) added",
+ "M-C15-1": "missed at first: literal type/rep witnesses on a stratified token sample added",
+ "M-C18-1": "missed at first: unsigned long long / long long (distinct types with their own specialisations) added to the instance matrix",
+ "M-C02-2": "missed at first by C02 (caught by C05's type facts): elastic / and % kernels with every signedness pairing added to C02",
+ "M-C07-2": "absorbed at first by the known finding C07-shl-zero, whose key was too coarse: shift finding keys now carry count class and lhs class, and every known finding is frozen as an explicit table of failing obligations with their deviation (known_instances.json)",
+ "M-C08-2": "reported at first as analysis-broken (exit 2: lines undecided, floor): divform reads nested constant adjustments as an affine numerator; now refuted (exit 1)",
+ "M-C11-2": "not caught by C11 by design: C11 establishes that division passes through the rounding layer and leaves that layer's direction to C08, which reports this change",
+ "M-C14-2": "missed at first: rule R6 (no rounding division reachable from the digit generator) added",
+ "M-C15-2": "reported at first as analysis-broken (exit 2: a literal stopped compiling): an uncompilable sampled literal is now a violation; fact attribution bisects unattributable diagnostics",
+ "M-C19-2": "missed at first: start-bit rule for built-in and multi-word reps added",
 }
 
 
@@ -74,6 +112,7 @@ def index_rows():
 
 
 def main():
+    rows = []
     for sid, (prop, summary, needs, checks) in sorted(T.items()):
         d = os.path.join(VERIF, "seeded", sid)
         if not os.path.isdir(d):
@@ -92,9 +131,14 @@ def main():
                  what_i_ran=("tools/confirm_mutant.sh %s in a scratch worktree of /repo: patch applied, whole suite rebuilt (ninja -k 0) and run with ctest, "
                              "demo.cpp compiled and run with and without the change" % sid),
                  confirmation=dict(l.split("=", 1) for l in conf.strip().split("\n") if "=" in l),
-                 detected_by=old.get("detected_by", ""), first_missed=old.get("first_missed", False), strengthening=old.get("strengthening", ""))
+                 detected_by=index_rows().get(sid, {}).get("reported_by", old.get("detected_by", "")), history=HIST.get(sid, "reported by the owning check as first built"))
         json.dump(m, open(mp, "w"), indent=1)
         print(sid, m["status"])
+        rows.append(m)
+    with open(os.path.join(VERIF, "seeded", "TABLE.md"), "w") as f:
+        f.write("| change | property | what was changed | what it needs to manifest | confirmed | reported by (violations, quick tier) | history |\n|---|---|---|---|---|---|---|\n")
+        for m in rows:
+            f.write("| %s | %s | %s | %s | %s | %s | %s |\n" % (m["id"], m["property"], m["summary"].replace("|", "/"), m["needs_to_manifest"].replace("|", "/"), m["status"], m["detected_by"], m["history"].replace("|", "/")))
 
 
 if __name__ == "__main__":
